@@ -138,6 +138,54 @@ def check_default():
                 fails.append((f"reused Reck object; {what}", f"mapped unitary differs from the circuit's current unitary by {err:.2e}"))
         except Exception as e:  # noqa: BLE001
             fails.append((f"reused Reck object; {what}", f"map raised {type(e).__name__}: {e}"))
+    # lossless circuits built with every component kind the API offers - including loss ELEMENTS whose value is zero (an explicit loss(m, 0), a Parameter
+    # at 0 on bs / ps / loss), barriers, swaps, groups, added sub-circuits: a lossless circuit is mapped, whatever it is made of
+    def build_zero_loss(kind):
+        c = lw.Circuit(4)
+        c.bs(0, reflectivity=0.3)
+        if kind == "loss(m, 0)":
+            c.loss(1, 0)
+        elif kind == "loss(m, Parameter(0))":
+            c.loss(2, lw.Parameter(0))
+        elif kind == "bs(loss=Parameter(0))":
+            c.bs(1, reflectivity=0.6, loss=lw.Parameter(0))
+        elif kind == "ps(loss=Parameter(0.0))":
+            c.ps(3, 0.4, loss=lw.Parameter(0.0))
+        elif kind == "zero loss inside an added group":
+            g = lw.Circuit(2)
+            g.bs(0)
+            g.loss(0, 0)
+            c.add(g, 1, group=True)
+        elif kind == "barrier + swaps + group":
+            c.barrier()
+            c.mode_swaps({0: 2, 2: 0})
+            g = lw.Circuit(2)
+            g.ps(1, 0.2)
+            c.add(g, 2, group=True)
+        c.bs(2, reflectivity=0.5)
+        c.ps(0, 1.1)
+        return c
+    for kind in ("loss(m, 0)", "loss(m, Parameter(0))", "bs(loss=Parameter(0))", "ps(loss=Parameter(0.0))", "zero loss inside an added group", "barrier + swaps + group"):
+        n += 1
+        c = build_zero_loss(kind)
+        try:
+            m = inter.Reck().map(c)
+            err = np.abs(m.U - c.U).max()
+            if err > TOL:
+                fails.append((f"lossless circuit with {kind}", f"mapped unitary differs by {err:.2e}"))
+        except Exception as e:  # noqa: BLE001
+            fails.append((f"lossless circuit with {kind}", f"map raised {type(e).__name__}: {e}"))
+    # the smallest circuits: one mode (a phase only), two modes
+    for nm in (1, 2):
+        n += 1
+        c = lw.Circuit(nm)
+        c.ps(0, 0.7)
+        try:
+            m = inter.Reck().map(c)
+            if np.abs(m.U - c.U).max() > TOL:
+                fails.append((f"{nm}-mode circuit", "mapped unitary differs"))
+        except Exception as e:  # noqa: BLE001
+            fails.append((f"{nm}-mode circuit", f"map raised {type(e).__name__}: {e}"))
     return _obl("lightworks/interferometers/reck.py:Reck.map#bnd.reproduces-unitary", n, fails,
                 "map(c).U = c.U to 1e-12 (observed worst 1e-15), adjacent BS + PS only, phases in [0,2pi), heralds kept; identity, all permutations n<=4, phased permutations, block-diagonal, sparse, DFT, near-degenerate, Haar")
 
